@@ -1,5 +1,5 @@
 // Unit registry for one numeric type (-DVF_NT): every unit type, every declared enumerator, the run-time conversion
-// (dispatch tables) and the compile-time conversions u->standard, standard->u, u->next(u).
+// (dispatch tables) and the compile-time conversions for all ordered pairs (scalars) / to, from the standard unit and to the next two units (containers).
 #include "units.inc"
 #include "units_iface.hpp"
 #include "nt.hpp"
@@ -8,6 +8,7 @@
 #include <PhQ/SymmetricDyad.hpp>
 #include <PhQ/Vector.hpp>
 #include <array>
+#include <optional>
 #include <utility>
 #include <vector>
 
@@ -31,20 +32,24 @@ VF_UNIT_TYPES(VF_T)
 template <class U> static VfLD conv(VfLD x, int from, int to) {
   return (VfLD)Convert<U, VfT>((VfT)x, Decl<U>::e[from], Decl<U>::e[to]);
 }
-template <class U, int I> static VfLD stat_one(VfLD x, int kind) {
-  constexpr U u = Decl<U>::e[I];
-  constexpr U nx = Decl<U>::e[(I + 1) % Decl<U>::n];
-  const VfT v = (VfT)x;
-  if (kind == 0) return (VfLD)ConvertStatically<U, u, Standard<U>, VfT>(v);
-  if (kind == 1) return (VfLD)ConvertStatically<U, Standard<U>, u, VfT>(v);
-  return (VfLD)ConvertStatically<U, u, nx, VfT>(v);
+// compile-time conversions: ALL ordered pairs of declared units (a two-level table of instantiations)
+template <class U, int I, int J> static VfLD stat_pair(VfLD x) {
+  constexpr U a = Decl<U>::e[I];
+  constexpr U b = Decl<U>::e[J];
+  return (VfLD)ConvertStatically<U, a, b, VfT>((VfT)x);
 }
-template <class U, std::size_t... I> static VfLD stat_all(VfLD x, int kind, int u, std::index_sequence<I...>) {
+template <class U, int I, std::size_t... J> static VfLD stat_row(VfLD x, int to, std::index_sequence<J...>) {
+  using F = VfLD (*)(VfLD);
+  static constexpr F tab[] = {&stat_pair<U, I, (int)J>...};
+  return tab[to](x);
+}
+template <class U, int I> static VfLD stat_row_of(VfLD x, int to) { return stat_row<U, I>(x, to, std::make_index_sequence<Decl<U>::n>{}); }
+template <class U, std::size_t... I> static VfLD stat_all(VfLD x, int from, int to, std::index_sequence<I...>) {
   using F = VfLD (*)(VfLD, int);
-  static constexpr F tab[] = {&stat_one<U, (int)I>...};
-  return tab[u](x, kind);
+  static constexpr F tab[] = {&stat_row_of<U, (int)I>...};
+  return tab[from](x, to);
 }
-template <class U> static VfLD stat(VfLD x, int kind, int u) { return stat_all<U>(x, kind, u, std::make_index_sequence<Decl<U>::n>{}); }
+template <class U> static VfLD stat(VfLD x, int from, int to) { return stat_all<U>(x, from, to, std::make_index_sequence<Decl<U>::n>{}); }
 
 // ---- container overloads -------------------------------------------------------------------------------------
 template <class U, std::size_t N> static int arr_dyn(int form, const VfLD* in, U from, U to, VfLD* out, VfLD* after) {
@@ -66,20 +71,22 @@ template <class U, class V> static void shaped_dyn(int form, V v, U from, U to, 
   if (form == 0) { const V r = Convert<U, VfT>(v, from, to); vflat(r, out); vflat(v, after); }
   else { ConvertInPlace<U, VfT>(v, from, to); vflat(v, out); vflat(v, after); }
 }
-// compile-time conversions on containers: unit I <-> standard
-template <class U, int I> static int stat_container(int shape, bool to_std, const VfLD* in, int n, VfLD* out, VfLD* after) {
-  constexpr U u = Decl<U>::e[I];
+// compile-time conversions on containers: unit I -> standard (D = -2), standard -> unit I (D = -1), unit I -> unit (I + D) mod n for D = 0, 1, 2
+template <class U, int I, int D> static int stat_container(int shape, const VfLD* in, int n, VfLD* out, VfLD* after) {
+  constexpr U a = D == -1 ? Standard<U> : Decl<U>::e[I];
+  constexpr U b = D == -2 ? Standard<U> : D == -1 ? Decl<U>::e[I] : Decl<U>::e[(I + D) % Decl<U>::n];
   auto run = [&](auto v) {
     using V = decltype(v);
-    if (to_std) { const V r = ConvertStatically<U, u, Standard<U>, VfT>(v); vflat(r, out); } else { const V r = ConvertStatically<U, Standard<U>, u, VfT>(v); vflat(r, out); }
+    const V r = ConvertStatically<U, a, b, VfT>(v); vflat(r, out);
     vflat(v, after);
   };
   switch (shape) {
+    case 0: { if (n != 1) return -1; const VfT x = (VfT)in[0]; out[0] = ConvertStatically<U, a, b, VfT>(x); after[0] = x; return 1; }
     case 1: {
       if (n != 3) return -1;
-      const std::array<VfT, 3> a{(VfT)in[0], (VfT)in[1], (VfT)in[2]};
-      const std::array<VfT, 3> r = to_std ? ConvertStatically<U, u, Standard<U>, 3, VfT>(a) : ConvertStatically<U, Standard<U>, u, 3, VfT>(a);
-      for (int i = 0; i < 3; i++) { out[i] = r[(std::size_t)i]; after[i] = a[(std::size_t)i]; }
+      const std::array<VfT, 3> arr{(VfT)in[0], (VfT)in[1], (VfT)in[2]};
+      const std::array<VfT, 3> r = ConvertStatically<U, a, b, 3, VfT>(arr);
+      for (int i = 0; i < 3; i++) { out[i] = r[(std::size_t)i]; after[i] = arr[(std::size_t)i]; }
       return 3;
     }
     case 3: run(mk_pv(in)); return 2;
@@ -89,17 +96,31 @@ template <class U, int I> static int stat_container(int shape, bool to_std, cons
     default: return -1;
   }
 }
-template <class U, std::size_t... I> static int stat_container_all(int unit, int shape, bool to_std, const VfLD* in, int n, VfLD* out, VfLD* after, std::index_sequence<I...>) {
-  using F = int (*)(int, bool, const VfLD*, int, VfLD*, VfLD*);
-  static constexpr F tab[] = {&stat_container<U, (int)I>...};
-  return tab[unit](shape, to_std, in, n, out, after);
+template <class U, int I> static int stat_container_modes(int mode, int shape, const VfLD* in, int n, VfLD* out, VfLD* after) {
+  switch (mode) {
+    case -2: return stat_container<U, I, -2>(shape, in, n, out, after);
+    case -1: return stat_container<U, I, -1>(shape, in, n, out, after);
+    case 0: return stat_container<U, I, 0>(shape, in, n, out, after);
+    case 1: return stat_container<U, I, 1>(shape, in, n, out, after);
+    case 2: return stat_container<U, I, 2>(shape, in, n, out, after);
+    default: return -1;
+  }
+}
+template <class U, std::size_t... I> static int stat_container_all(int unit, int mode, int shape, const VfLD* in, int n, VfLD* out, VfLD* after, std::index_sequence<I...>) {
+  using F = int (*)(int, int, const VfLD*, int, VfLD*, VfLD*);
+  static constexpr F tab[] = {&stat_container_modes<U, (int)I>...};
+  return tab[unit](mode, shape, in, n, out, after);
 }
 template <class U> static int conv_container(int shape, int form, const VfLD* in, int n, int from, int to, VfLD* out, VfLD* after) {
   const U f = Decl<U>::e[from], t = Decl<U>::e[to];
   if (form == 2) {
+    // supported compile-time pairs: from == standard, to == standard, to == from + {0, 1, 2} (cyclic); anything else is "not applicable"
     int std_idx = -1; for (int i = 0; i < Decl<U>::n; i++) if (Decl<U>::e[i] == Standard<U>) std_idx = i;
-    if (to == std_idx) return stat_container_all<U>(from, shape, true, in, n, out, after, std::make_index_sequence<Decl<U>::n>{});
-    if (from == std_idx) return stat_container_all<U>(to, shape, false, in, n, out, after, std::make_index_sequence<Decl<U>::n>{});
+    const auto seq = std::make_index_sequence<Decl<U>::n>{};
+    const int d = ((to - from) % Decl<U>::n + Decl<U>::n) % Decl<U>::n;
+    if (d <= 2) return stat_container_all<U>(from, d, shape, in, n, out, after, seq);
+    if (to == std_idx) return stat_container_all<U>(from, -2, shape, in, n, out, after, seq);
+    if (from == std_idx) return stat_container_all<U>(to, -1, shape, in, n, out, after, seq);
     return -1;
   }
   switch (shape) {
@@ -122,12 +143,28 @@ template <class U> static int conv_container(int shape, int form, const VfLD* in
   }
 }
 
+template <class U> static int related(int unit_index) { const std::optional<UnitSystem> r = RelatedUnitSystem(Decl<U>::e[unit_index]); return r.has_value() ? (int)r.value() : -1; }
+template <class U> static int consistent(int system_value) {
+  try { return (int)ConsistentUnit<U>(static_cast<UnitSystem>(system_value)); } catch (...) { return -2; }   // -2: the lookup threw (the table misses a declared system)
+}
+#if VF_NT == 0
+#define VF_E(E) UnitSystem::E,
+#define VF_N(E) #E,
+static constexpr UnitSystem kSystems[] = {VF_ENUMS_UnitSystem(VF_E)};
+static constexpr const char* kSystemNames[] = {VF_ENUMS_UnitSystem(VF_N)};
+#undef VF_E
+#undef VF_N
+extern "C" int vf_systems_count() { return (int)(sizeof(kSystems) / sizeof(kSystems[0])); }
+extern "C" const char* vf_system_name(int i) { return kSystemNames[i]; }
+extern "C" int vf_system_value(int i) { return (int)kSystems[i]; }
+#endif
+
 template <class U> static VfUnitType row() {
   static std::vector<int> values;
   values.clear();
   int std_idx = -1;
   for (int i = 0; i < Decl<U>::n; i++) { values.push_back((int)Decl<U>::e[i]); if (Decl<U>::e[i] == Standard<U>) std_idx = i; }
-  return VfUnitType{Decl<U>::tname, Decl<U>::n, Decl<U>::names, values.data(), std_idx, &conv<U>, &stat<U>, &conv_container<U>};
+  return VfUnitType{Decl<U>::tname, Decl<U>::n, Decl<U>::names, values.data(), std_idx, &conv<U>, &stat<U>, &conv_container<U>, &related<U>, &consistent<U>};
 }
 static const std::vector<VfUnitType>& table() {
   static const std::vector<VfUnitType> t = [] {
